@@ -209,26 +209,25 @@ def sortT (lt : Term → Term → Bool) (l : List Term) : List Term := l.foldr (
 /-- `_is_valid_uri`: no character of `_invalid_uri_chars` occurs -/
 def isValidUri (s : Str) : Bool := Tables.invalidUriChars.all (fun c => !s.contains c)
 
-/-- `str.replace(c, rep)` for a one-character pattern -/
-def replaceChar (c : Char) (rep : Str) (s : Str) : Str :=
-  s.flatMap (fun x => if x = c then rep else [x])
+def alookupS (k : Char) : List (Char × Str) → Option Str
+  | [] => none
+  | (a, b) :: r => if a = k then some b else alookupS k r
 
-/-- the short-quoted branch of `_quote_encode`:
-    `self.replace("\n","\\n").replace("\\","\\\\").replace('"','\\"').replace("\r","\\r")` -/
-def shortEncode (s : Str) : Str :=
-  replaceChar '\r' ['\\', 'r'] (replaceChar '"' ['\\', '"'] (replaceChar '\\' ['\\', '\\']
-    (replaceChar '\n' ['\\', 'n'] s)))
+/-- how `_quote_encode` writes one character: read from a table PROBED from the live function
+    (`Tables.shortEscapes`, `Tables.longEscapes`); a character not in the table is written as itself -/
+def escWith (T : List (Char × Str)) (c : Char) : Str := (alookupS c T).getD [c]
 
-/-- `'"""' in s` -/
-def hasTriple : Str → Bool
-  | '"' :: '"' :: '"' :: _ => true
-  | _ :: s => hasTriple s
-  | [] => false
+/-- the short-quoted branch of `_quote_encode` (whatever way the code has of getting there: a chain of
+    `str.replace`, `str.translate`, …): every character is replaced by its written form -/
+def shortEncodeT (T : List (Char × Str)) (s : Str) : Str := s.flatMap (escWith T)
 
-/-- `encoded.replace('"""', '\\"\\"\\"')` (leftmost, non-overlapping) -/
-def replTriple : Str → Str
-  | '"' :: '"' :: '"' :: s => '\\' :: '"' :: '\\' :: '"' :: '\\' :: '"' :: replTriple s
-  | c :: s => c :: replTriple s
+def shortEncode (s : Str) : Str := shortEncodeT Tables.shortEscapes s
+
+/-- the long-quoted branch, first part: three quotes in a row are written `\"\"\"`
+    (`.replace('"""', '\\"\\"\\"')`, leftmost and non-overlapping), every other character by its written form -/
+def encT (T : List (Char × Str)) : Str → Str
+  | '"' :: '"' :: '"' :: s => '\\' :: '"' :: '\\' :: '"' :: '\\' :: '"' :: encT T s
+  | c :: s => escWith T c ++ encT T s
   | [] => []
 
 /-- `s.rstrip("\\")` -/
@@ -248,10 +247,9 @@ def fixTrail (e : Str) : Str :=
   else e
 
 /-- the long-quoted branch of `_quote_encode` (without the surrounding quotes) -/
-def longEncode (s : Str) : Str :=
-  let e := replaceChar '\\' ['\\', '\\'] s
-  let e := if hasTriple s then replTriple e else e
-  replaceChar '\r' ['\\', 'r'] (fixTrail e)
+def longEncodeT (T : List (Char × Str)) (s : Str) : Str := fixTrail (encT T s)
+
+def longEncode (s : Str) : Str := longEncodeT Tables.longEscapes s
 
 def q3 : Str := ['"', '"', '"']
 
@@ -467,10 +465,6 @@ def hexNum (s : Str) : Nat := s.foldl (fun n c => 16 * n + hexVal c) 0
 def alookup (k : Char) : List (Char × Char) → Option Char
   | [] => none
   | (a, b) :: r => if a = k then some b else alookup k r
-
-def alookupS (k : Char) : List (Char × Str) → Option Str
-  | [] => none
-  | (a, b) :: r => if a = k then some b else alookupS k r
 
 /-- `compat.decodeUnicodeEscape`: one left-to-right pass of
     `\\([tbnrf"'\\])|\\(u[0-9A-Fa-f]{4}|U[0-9A-Fa-f]{8})`; `none` = `chr()` raises or gives a surrogate.
